@@ -343,7 +343,12 @@ func (m *Model) BeginBlock(h int64, t int64, proposer int, votes []Vote, evs []E
 	}
 	m.Awards = map[int]*big.Int{}
 	// 3. burns
-	for _, a := range sortedIntsR(m.Burns) {
+	// the queue is a store prefix: entries come in address order
+	burnOrder := sortedIntsR(m.Burns)
+	sort.Slice(burnOrder, func(i, j int) bool {
+		return bytes.Compare(m.kr.Get(burnOrder[i]).Addr, m.kr.Get(burnOrder[j]).Addr) < 0
+	})
+	for _, a := range burnOrder {
 		v, ok := m.Vals[a]
 		if !ok {
 			e.ExpectHalt = "burn-of-removed-validator"
